@@ -255,6 +255,16 @@ def digest_ok(ctx, fx, fn, r):
 
 
 def hash_input_ok(x):
+    # exact form first: the text must be jwt~d0~…~d(n-1)~ for every number of presented disclosures (token normal form, sa/strmodel.py)
+    import strmodel
+    fn = None
+    for n_ in walk(x):
+        if n_.fn is not None:
+            fn = n_.fn
+            break
+    fm = strmodel.forms(fn, x, ("input_disclosures",)) if fn is not None else None
+    if fm is not None:
+        return fm == strmodel.expected("unverified_sd_jwt", "input_disclosures")
     jwt = may(x, lambda n: is_field(n, "unverified_sd_jwt"))
     sep = may(x, lambda n: const_value(n) == "~")
     # all disclosures: an iterator over the whole input_disclosures vector, no skipping adaptor
@@ -324,7 +334,14 @@ def k4(ctx, fx, A):
                         hs = [x for x in walk(v) if x.kind == "call" and (x.d["term"].get("resolved") or "") == "utils::base64_hash"]
                         if hs and must(v, lambda x: x in hs):
                             x = hs[0].kids[0]
-                            hash_ok = may(x, lambda n: is_field(n, "serialized_sd_jwt")) and may(x, lambda n: const_value(n) == "~") and may(x, lambda n: is_field(n, "hs_disclosures"))
+                            import strmodel
+                            fm = strmodel.forms(f, x, ("hs_disclosures",))
+                            if fm is not None:
+                                hash_ok = (fm == strmodel.expected("serialized_sd_jwt", "hs_disclosures"))
+                                if not hash_ok:
+                                    ctx.stats["holder_sd_hash_forms"] = fm
+                            else:
+                                hash_ok = may(x, lambda n: is_field(n, "serialized_sd_jwt")) and may(x, lambda n: const_value(n) == "~") and may(x, lambda n: is_field(n, "hs_disclosures"))
         for w in (common.struct_field_writes(fx, "jsonwebtoken::Header", "typ", fns=[f]) or []):
             if w["value"] is not None and may(w["value"], lambda x: const_value(x) == "kb+jwt"):
                 typ_written = True
@@ -346,7 +363,9 @@ def k4(ctx, fx, A):
     if hash_ok:
         ctx.ok("C04.K4", None, "sd_hash-roots", "holder's sd_hash = base64_hash over (serialized JWT, selected disclosures, `~`): same function and roots as the verifier")
     else:
-        ctx.finding("C04.K4", None, "sd_hash-roots", "holder's sd_hash is not base64_hash over (serialized JWT, selected disclosures, `~`)")
+        fm = ctx.stats.get("holder_sd_hash_forms")
+        ctx.finding("C04.K4", None, "sd_hash-roots", "holder's sd_hash is not base64_hash over jwt~d0~…~d(n-1)~ (the text the verifier recomputes)%s"
+                    % ((": for 0, 1, 2 disclosures it hashes %r" % fm[:3]) if fm else ""))
 
 
 def chk(ctx, fn, line, what, cond, okmsg, badmsg):
